@@ -40,7 +40,8 @@ def roundtrip_checks(p):
         q = ir.to_proto(m)
     except Exception as e:  # noqa: BLE001
         return [f"model: round trip raised {type(e).__name__}: {str(e)[:160]}"]
-    a, b = protonorm.norm(p), protonorm.norm(q)
+    had = protonorm.initializer_value_info(p)
+    a, b = protonorm.norm(p, had), protonorm.norm(q, had)
     if a != b:
         problems.append("model: " + str(protonorm.first_difference(a, b, "model")))
 
